@@ -130,7 +130,7 @@ def run(tier, seed):
     gs = tlc.run("MetadataGen", GEN % (3, 3, "TRUE"), workers=4, simulate=(200 if tier == "quick" else 2500), depth=12, seed=seed, timeout=600)
     hs = gs.printed
     chk.cov["histories_enumerated"] = len(h1) + len(h0)
-    cap = 1500 if tier == "quick" else 12000          # TLC enumerates all; a seeded sample is replayed through the four families
+    cap = 1500 if tier == "quick" else 5000           # TLC enumerates all; a seeded sample is replayed through the four families
     h1 = rnd.sample(h1, min(len(h1), cap)); h0 = rnd.sample(h0, min(len(h0), cap))
     if tier != "quick":
         g2 = tlc.run("MetadataGen", GEN % (1, 2, "TRUE"), workers=4, simulate=4000, depth=8, seed=seed + 1, timeout=600)
